@@ -91,6 +91,15 @@ func LoadWorld(repo string, patterns []string) (*World, error) {
 		return nil, err
 	}
 	w.cs = cs
+	// contract variants: `contract F#tag` is a second contract of F (used by callers
+	// that name it with `variant F#tag`) and is verified against F's body like any other
+	for key := range cs.Contracts {
+		if i := strings.Index(key, "#"); i >= 0 {
+			if fn := w.funcs[key[:i]]; fn != nil {
+				w.funcs[key] = fn
+			}
+		}
+	}
 	return w, nil
 }
 
